@@ -192,7 +192,6 @@ type stabT struct {
 	Reads    int      `json:"reads"`
 	Ops      []string `json:"ops"`
 	Differ   []string `json:"differ"`
-	Known    []string `json:"differ_known_roi_partition"`
 	DigestV  bool     `json:"digest_v_changed"`
 	NodeV    bool     `json:"node_state_changed"`
 	Nonempty int      `json:"reads_with_content"`
@@ -261,6 +260,46 @@ func stability(run *lib.Run, rng *lib.Rand, o lib.Opts) {
 		nops = 400
 	}
 	scratch := 0
+	// fixed prelude: the later operations every run must contain
+	{
+		u := uuidU
+		op("POST kv/key/k1 (overwrite in child)", dv.Post(node(u, "kv", "key/k1?u=verif"), []byte("child-value")))
+		op("DELETE kv/key/k2 (child)", dv.Delete(node(u, "kv", "key/k2?u=verif")))
+		if has["roi"] {
+			op("POST roi/roi (child)", dv.Post(node(u, "roi", "roi?u=verif"), []byte(roiB)))
+		}
+		if has["gray"] {
+			op("POST gray/raw (child)", dv.Post(node(u, "gray", "raw/0_1_2/32_32_32/0_0_0?u=verif"), grayB))
+		}
+		if has["lm"] {
+			op("POST lm/raw (child)", dv.Post(node(u, "lm", "raw/0_1_2/64_64_64/0_0_0?u=verif"), volBBytes))
+			quiesce(true)
+			op("POST lm/merge (child)", dv.Post(node(u, "lm", "merge?u=verif"), []byte("[7,8]")))
+		}
+		if has["an"] {
+			op("POST an/elements (child)", dv.Post(node(u, "an", "elements?u=verif"), []byte(annotB)))
+			op("DELETE an/element (child)", dv.Delete(node(u, "an", "element/10_10_10?u=verif")))
+		}
+		if has["nj"] {
+			op("POST nj/key/1000 (child)", dv.Post(node(u, "nj", "key/1000?u=verif"), []byte(njB)))
+			op("DELETE nj/key/2000 (child)", dv.Delete(node(u, "nj", "key/2000?u=verif")))
+		}
+		if has["tsv"] {
+			op("POST tsv/supervoxel/1 (child)", dv.Post(node(u, "tsv", "supervoxel/1?u=verif"), []byte("PROBE-mesh")))
+		}
+		if has["lmscratch"] && os.Getenv("C02_NODELETE") == "" {
+			// instance ids are handed out in creation order: lmscratch sits right before la
+			err := deleteInstance("lmscratch")
+			st.Ops = append(st.Ops, fmt.Sprintf("delete instance lmscratch -> %v", err))
+			if err == nil {
+				has["lmscratch"] = false
+			}
+		}
+		quiesce(true)
+		if len(st.Ops) > 0 {
+			blame()
+		}
+	}
 	for i := 0; i < nops; i++ {
 		switch k := rng.Intn(14); {
 		case k < 6 && len(open) > 0: // write into an open descendant / sibling
@@ -385,16 +424,47 @@ func stability(run *lib.Run, rng *lib.Rand, o lib.Opts) {
 		keys = append(keys, k)
 	}
 	sort.Strings(keys)
+	type perT struct {
+		Kind   string   `json:"kind"`
+		Inst   string   `json:"instance"`
+		Pkg    string   `json:"pkg"`
+		Reads  int      `json:"reads"`
+		Differ []string `json:"differ"`
+		Known  []string `json:"differ_known"`
+		Code   int      `json:"known_code"`
+		Ops    []string `json:"ops"`
+	}
+	per := map[string]*perT{}
+	var names []string
 	for _, k := range keys {
 		if strings.Contains(k, "/lmscratch/") {
 			continue
 		}
+		parts := strings.Split(k, "/") // "", api, node, V, inst, kw...
+		name := parts[4]
+		p := per[name]
+		if p == nil {
+			p = &perT{Kind: "stability-instance", Inst: name}
+			for _, in := range insts {
+				if in.Name == name {
+					p.Pkg = in.Pkg
+				}
+			}
+			per[name] = p
+			names = append(names, name)
+		}
+		p.Reads++
 		if before[k] != after[k] {
 			d := fmt.Sprintf("%s: %s -> %s", k, before[k], after[k])
-			if strings.Contains(k, "/roi/partition") {
-				// recorded finding: the partition is laid out from the instance-wide MinZ/MaxZ properties
-				st.Known = append(st.Known, d)
-			} else {
+			switch {
+			case p.Pkg == "roi" && strings.Contains(k, "/partition"):
+				// recorded finding C02-roi-partition: laid out from the instance-wide MinZ/MaxZ properties
+				p.Known, p.Code = append(p.Known, d), 7
+			case p.Pkg == "tarsupervoxels":
+				// recorded finding C02-tarsupervoxels-root-pinned: every blob lives at the repo's root version
+				p.Known, p.Code = append(p.Known, d), 8
+			default:
+				p.Differ = append(p.Differ, d)
 				st.Differ = append(st.Differ, d)
 			}
 		}
@@ -408,5 +478,10 @@ func stability(run *lib.Run, rng *lib.Rand, o lib.Opts) {
 		}
 		fmt.Println("stability: reads", st.Reads, "with content", st.Nonempty, "ops", len(st.Ops), "differ", len(st.Differ), "node", st.NodeV)
 	}
-	run.Add("stability", fmt.Sprintf("CStable %d %d %d %d %s", st.Reads, st.Nonempty, len(st.Differ), len(st.Known), lib.CoqBool(st.NodeV)), st, "stability")
+	run.Add("stability", fmt.Sprintf("CStable %d %d %d %s", st.Reads, st.Nonempty, len(st.Differ), lib.CoqBool(st.NodeV)), st, "stability")
+	for _, name := range names {
+		p := per[name]
+		p.Ops = st.Ops
+		run.Add("stability-instance", fmt.Sprintf("CStabInst %d %d %d %d", p.Code, p.Reads, len(p.Differ), len(p.Known)), p, "stability/"+name)
+	}
 }
